@@ -113,6 +113,31 @@ func bothPools(cs ...Cfg) []Cfg {
 	return out
 }
 
+// binary keys: keys that end in zero bytes, are prefixes of one another, or start with 0xFF (nothing in the record
+// or hint encoding, the index order or the shard hash may treat a byte of a key as special)
+var binaryKeys = []string{"k\x00", "k", "\xff\x00\x00"}
+
+func binaryKeyAlphabet(c Cfg) []Op {
+	return []Op{
+		{K: "put", Key: binaryKeys[0], VC: "S"},
+		{K: "put", Key: binaryKeys[1], VC: "S"},
+		{K: "put", Key: binaryKeys[2], VC: "S"},
+		{K: "del", Key: binaryKeys[0]},
+		{K: "del", Key: binaryKeys[1], Dev: true},
+		{K: "put", Key: binaryKeys[1], VC: "L", Dev: true},
+		{K: "batch", Sub: []Op{{K: "put", Key: binaryKeys[0], VC: "S"}, {K: "del", Key: binaryKeys[1]}, {K: "put", Key: binaryKeys[2], VC: "L"}}, Dev: true},
+		{K: "restart", Dev: true},
+		{K: "merge", Dev: true},
+		{K: "merge", Arg: 1, Dev: true},
+	}
+}
+
+func binaryKeyLevel(run func(Cfg, []string, []Op, *TaskResult) *Violation) seqLevel {
+	mm := defaultCfg
+	mm.IO = 1
+	return seqLevel{Name: "binary-keys-d4", Cfgs: append(tinyCfgs(), mm), Keys: binaryKeys, Alpha: binaryKeyAlphabet, Depth: 4, Dev: 2, Run: run}
+}
+
 // ---- C01 --------------------------------------------------------------------------------------
 
 func runC01(cfg Cfg, keys []string, ops []Op, res *TaskResult) *Violation {
@@ -172,6 +197,7 @@ func init() {
 					{Name: "tiny-d4b2", Cfgs: bothPools(defaultCfg), Keys: keysAB, Alpha: tinyAlphabet, Depth: 4, Dev: 2, Run: runC01},
 					{Name: "block-d3b2", Cfgs: append(bothPools(blockCfg()), oddBlockCfg()), Keys: keysAB, Alpha: blockAlphabet, Depth: 3, Dev: 2, Run: runC01},
 					deleteBatchLevel(runC01, 3),
+					binaryKeyLevel(runC01),
 					{Name: "many-files-d4", Cfgs: []Cfg{manyFilesCfg()}, Keys: keysAB, Alpha: manyFilesAlphabet, Depth: 4, Dev: 4, Run: runC01},
 					{Name: "fault-d3", Cfgs: c01FaultCfgs(), Keys: keysAB, Alpha: c01FaultAlphabet, Depth: 3, Dev: 3, Run: runC01Fault},
 				})
@@ -189,6 +215,7 @@ func init() {
 				{Name: "block-d4b3", Cfgs: bothPools(bt, bt2, bt3), Keys: keysAB, Alpha: blockAlphabet, Depth: 4, Dev: 3, Run: runC01},
 				{Name: "many-files-d4", Cfgs: []Cfg{manyFilesCfg()}, Keys: keysAB, Alpha: manyFilesAlphabet, Depth: 4, Dev: 4, Run: runC01},
 				{Name: "fault-d4", Cfgs: c01FaultCfgs(), Keys: keysAB, Alpha: c01FaultAlphabet, Depth: 4, Dev: 4, Run: runC01Fault},
+				binaryKeyLevel(runC01),
 			})
 		},
 		Bounds: func(tier string) map[string]any {
